@@ -9,10 +9,15 @@ import itertools
 from harness.common import enc
 
 PROP = 'C06'
-GENERATORS = []
+GENERATORS = ['gen_groups']
 TRUSTED = [
-    'hand model coq/C06/Model.v of DataCollection.append/remove/merge/clear/new_subset_group/remove_subset_group and '
-    'SubsetGroup._add_data/_remove_data/register, Subset.delete (tied by correspondence on the explored sequences)',
+    'tools/gen/gen_groups.py translates SubsetGroup.register/_add_data/_remove_data/register_to_hub, HubListener.unregister, '
+    'DataCollection.append/extend/remove/clear/new_subset_group/remove_subset_group, BaseData.add_subset, Subset.register/delete statement by '
+    'statement (fail-closed) into coq/gen/Gen_groups.v; theorems gen_refines_model / gen_inv_reachable tie the hand model to that text; the '
+    'translator itself, its fixed preamble (heap layout, list.remove, the hub primitives subscribe / unsubscribe_all / broadcast / '
+    'delay_callbacks written by hand from hub.py) and the typing conventions (one collection, one hub, object references as integers) are '
+    'trusted and exercised by the correspondence stream `generated` (state, subscription table and event trace after every step)',
+    'hand model coq/C06/Model.v of DataCollection.merge (membership part) and of the group attribute setters (tied by correspondence on the explored sequences)',
     'GroupedSubset reads subset_state/label/style through its group (Pointer, property): modelled as a lookup of the group record; '
     'the harness checks `s.subset_state is g.subset_state`, `s.label == g.label`, `s.style is g.style` on the real objects',
     'the hub delivers DataCollectionAdd/DeleteMessage to the groups in subscription (= creation) order; subsets of one dataset '
@@ -88,6 +93,7 @@ def tree_to_expr(t):
 class Impl:
     """a real DataCollection with a pool of datasets; groups and datasets are numbered in creation order"""
     NPIX = 4
+    log = None
 
     def __init__(self, pool):
         from glue.core import Data, DataCollection
@@ -99,11 +105,123 @@ class Impl:
         self.keep = []       # keeps every subset seen alive so ids are not reused
         self.removed_d = set()
         self.removed_g = set()
+        self.log = None      # list of events when the case is spied on (stream `generated`)
 
     def data(self, i):
         if self.datas[i] is None:
-            self.datas[i] = self.Data(x=[1, 2, 3, 4], label='d%d' % i)
+            d = self.datas[i] = self.Data(x=[1, 2, 3, 4], label='d%d' % i)
+            if self.log is not None:
+                orig = d.register_to_hub
+
+                def reg(hub, _orig=orig, _i=i):
+                    self.log.append(('regdata', _i))
+                    return _orig(hub)
+                object.__setattr__(d, 'register_to_hub', reg)
         return self.datas[i]
+
+    def spy(self):
+        """record, in order: deliveries of the four message classes of the model, data.register_to_hub, _sync_link_manager,
+        _ignore_link_manager_update enter/leave, Registry().unregister of a dataset / of a subset"""
+        from contextlib import contextmanager
+        from glue.core.hub import HubListener
+        from glue.core import message as M
+        self.log = []
+        im = self
+
+        class Spy(HubListener):
+            def register_to_hub(self, hub):
+                for cls in (M.DataCollectionAddMessage, M.DataCollectionDeleteMessage, M.SubsetCreateMessage, M.SubsetDeleteMessage):
+                    hub.subscribe(self, cls, handler=self.receive)
+
+            def receive(self, msg):
+                im.log.append(('deliver', msg))
+        self._spy = Spy()
+        self._spy.register_to_hub(self.dc.hub)
+        dc = self.dc
+        sync, ign = dc._sync_link_manager, dc._ignore_link_manager_update
+
+        depth = [0]
+
+        def sync2():
+            im.log.append(('sync',))
+            depth[0] += 1          # what _sync_link_manager does inside is not part of the model (one opaque event)
+            try:
+                return sync()
+            finally:
+                depth[0] -= 1
+
+        @contextmanager
+        def ign2():
+            if depth[0]:
+                with ign():
+                    yield
+                return
+            im.log.append(('ignore', 1))
+            with ign():
+                yield
+            im.log.append(('ignore', -1))
+        dc._sync_link_manager = sync2
+        dc._ignore_link_manager_update = ign2
+        install_registry_probe()
+        return self
+
+    def drain_events(self):
+        """canonical form of the events since the last call (numbers subsets at first sight)"""
+        from glue.core import message as M
+        from glue.core.subset_group import GroupedSubset
+        out = []
+        for e in self.log:
+            if e[0] == 'deliver':
+                m = e[1]
+                if isinstance(m, M.DataCollectionAddMessage):
+                    out.append(('deliver', 'add', self._did(m.data)))
+                elif isinstance(m, M.DataCollectionDeleteMessage):
+                    out.append(('deliver', 'del', self._did(m.data)))
+                else:
+                    out.append(('deliver', 'create' if isinstance(m, M.SubsetCreateMessage) else 'delete') + self.sub_code(m.subset))
+            elif e[0] == 'unreg':
+                obj = e[1]
+                if isinstance(obj, GroupedSubset):
+                    # Subset.__del__ calls delete(): garbage of an earlier case shows up here; only this case's objects count
+                    if self._did(obj.data) >= 0 and self._gid(obj.group) >= 0:
+                        out.append(('unreg-subset',) + self.sub_code(obj))
+                else:
+                    di = self._did(obj)
+                    if di >= 0:
+                        out.append(('unreg-data', di))
+            else:
+                out.append(e)
+        del self.log[:]
+        return out
+
+    def sub_code(self, s):
+        from glue.core.subset_group import GroupedSubset
+        if not isinstance(s, GroupedSubset):
+            return (-2, -2, -2)
+        return (self._sid(s), self._did(s.data), self._gid(s.group))
+
+    def hub_table(self):
+        """the hub's subscription table restricted to the groups: [(group, [message class codes in dict order])]"""
+        from glue.core.subset_group import SubsetGroup
+        from glue.core import message as M
+        code = {M.DataCollectionAddMessage: 1, M.DataCollectionDeleteMessage: 2}
+        out = []
+        for sub, cont in list(self.dc.hub._subscriptions.items()):
+            if isinstance(sub, SubsetGroup):
+                out.append((self._gid(sub), [code.get(c, 3) for c in cont.keys()]))
+        return out
+
+    def queue_codes(self):
+        from glue.core import message as M
+        out = []
+        for m in self.dc.hub._queue:
+            if isinstance(m, M.DataCollectionAddMessage):
+                out.append(('add', self._did(m.data)))
+            elif isinstance(m, M.DataCollectionDeleteMessage):
+                out.append(('del', self._did(m.data)))
+            elif isinstance(m, (M.SubsetCreateMessage, M.SubsetDeleteMessage)):
+                out.append(('create' if isinstance(m, M.SubsetCreateMessage) else 'delete',) + self.sub_code(m.subset))
+        return out
 
     # -- expressions <-> real subset states
     def mk_state(self, e):
@@ -145,7 +263,7 @@ class Impl:
             elif k == 'remove':
                 dc.remove(self.data(o[1]))
             elif k == 'newgroup':
-                if o[1] is None:
+                if len(o) < 2 or o[1] is None:
                     g = dc.new_subset_group()
                 else:
                     g = dc.new_subset_group(subset_state=self.mk_state(o[1]))
@@ -173,12 +291,20 @@ class Impl:
                 self.datas.append(m)
             elif k == 'clear':
                 dc.clear()
+            elif k == 'extend':
+                dc.extend([self.data(i) if i >= 0 else object() for i in o[1]])
+            elif k == 'delayed':
+                with dc.hub.delay_callbacks():
+                    for b in o[1]:
+                        self.apply(b)
             else:
                 raise RuntimeError('unknown op %r' % (o,))
         except ValueError:
             st = 1
         except TypeError:
             st = 2
+        except Exception as exc:        # a broken tree may raise anything: the case goes on (the comparison reports the status)
+            st = 9
         now = list(dc.data)
         for d in before:
             if not any(d is x for x in now):
@@ -418,6 +544,13 @@ def ops_key(pool, ops):
     return (pool, tuple(tuple(map(lambda x: tuple(x) if isinstance(x, list) else x, o)) for o in ops))
 
 
+def safe_model(R, lines):
+    """the extracted model's answers, or None per case when the driver could not be built (the oracles still run)"""
+    if not getattr(R, 'model_available', False):
+        return [None] * len(lines)
+    return R.model(lines)
+
+
 def nontrivial(ops):
     """a case is non-trivial when at least one dataset meets at least one group"""
     ks = [o[0] for o in ops]
@@ -500,13 +633,13 @@ def stream_exhaustive(R, ncolors):
         extra = R.subrng('exh-extra').sample(extra, n_extra)
     cases += extra
     lines = [case_line(nd, ncolors, ops) for ops in cases]
-    outs = R.model(lines)
+    outs = safe_model(R, lines)
     nbad = 0
     for ops, mt in zip(cases, outs):
         # only the final state of each sequence is compared: every prefix is itself a case of this stream.
         # The model-side subset numbering still walks all steps; the implementation numbers at the last step only,
         # so renumber the model's last observation alone.
-        mt_last = (mt[0], mt[1][-1:]) if mt[1] else mt
+        mt_last = ((mt[0], mt[1][-1:]) if mt[1] else mt) if mt is not None else None
         res, im = run_impl(nd, ops, every_step=False)
         snap, orc = res[-1]
         R.count(ops_key(nd, ops), nontrivial=nontrivial(ops), stream='exhaustive', length=len(ops), last_op=ops[-1][0])
@@ -516,6 +649,8 @@ def stream_exhaustive(R, ncolors):
                 small = shrink(nd, ops, lambda c: valid_for(nd, c) and first_oracle_failure(nd, c) is not None)
                 ff = first_oracle_failure(nd, small)
                 R.fail('oracle', {'stream': 'exhaustive', 'pool': nd, 'ops': small}, {'step': ff[0], 'violations': ff[1][:6]}, key=None)
+        if mt_last is None:
+            continue
         m = model_snapshots(mt_last, nd)
         if len(m) != 1 or 'error' in m[0]:
             R.fail('correspondence', {'stream': 'exhaustive', 'pool': nd, 'ops': ops}, {'why': 'model answer malformed'})
@@ -608,7 +743,7 @@ def stream_random(R, ncolors):
         pool = rng.choice([2, 3, 4, 5])
         length = rng.choice([6, 10, 20, 30, 40])
         cases.append((pool, gen_random_ops(rng, pool, length)))
-    outs = R.model([case_line(p, ncolors, ops) for p, ops in cases])
+    outs = safe_model(R, [case_line(p, ncolors, ops) for p, ops in cases])
     for (pool, ops), mt in zip(cases, outs):
         R.count(ops_key(pool, ops), nontrivial=nontrivial(ops), stream='random', length=len(ops))
         for o in ops:
@@ -830,13 +965,275 @@ def stream_delay(R):
                    'the invariant when the block is left (oracle only; delivery order inside the hub is C07\'s model)')
 
 
+
+# ------------------------------------------------------------------ the TRANSLATED functions against the live code
+_PROBE = {'log': None, 'installed': False}
+
+
+def install_registry_probe():
+    from glue.core.registry import Registry
+    if not _PROBE['installed']:
+        cls = type(Registry())          # `Registry` is a singleton factory, not the class
+        orig = cls.unregister
+
+        def unregister(self, obj, group=None, _orig=orig):
+            if _PROBE['log'] is not None:
+                _PROBE['log'].append(('unreg', obj))
+            return _orig(self, obj, group=group)
+        cls.unregister = unregister
+        _PROBE['installed'] = True
+
+
+def enc_gop(o):
+    k = o[0]
+    if k == 'append':
+        return (1, [o[1]])
+    if k == 'remove':
+        return (2, [o[1]])
+    if k == 'newgroup':
+        return (3, [])
+    if k == 'rmgroup':
+        return (4, [o[1]])
+    if k == 'clear':
+        return (9, [])
+    if k == 'extend':
+        return (10, list(o[1]))
+    if k == 'delayed':
+        return (11, [enc_gop(b) for b in o[1]])
+    raise ValueError(o)
+
+
+def gen_case_line(pool, ncolors, ops):
+    return enc((2, [pool, ncolors, (0, [enc_gop(o) for o in ops])]))
+
+
+GEN_FIELDS = ('status', 'coll', 'groups', 'dsubs', 'gsubs', 'gattr', 'subs', 'events', 'paused', 'queue')
+
+
+def run_impl_gen(pool, ops):
+    """the real code, spied on: per step the snapshot + hub table + events + queue"""
+    im = Impl(pool)
+    im.log = []
+    im.spy()
+    _PROBE['log'] = im.log
+    res = []
+    try:
+        for o in ops:
+            st = im.apply(o)
+            ev = im.drain_events()
+            snap = im.snapshot()
+            snap['status'] = st
+            snap['events'] = ev
+            snap['subs'] = im.hub_table()
+            snap['paused'] = im.dc.hub._paused
+            snap['queue'] = im.queue_codes()
+            snap['gattr'] = {g: a[1:] for g, a in snap['gattr'].items()}
+            res.append((snap, im.oracle()))
+    finally:
+        _PROBE['log'] = None
+    return res, im
+
+
+def gen_snapshots(tree):
+    """decode the answer of the translated machine, numbering subsets at first sight in the same walk as the implementation side"""
+    out = []
+    ren = {}
+
+    def sid(x):
+        if x not in ren:
+            ren[x] = len(ren)
+        return ren[x]
+
+    def subc(ks):
+        return (sid(ks[0][0]), ks[1][0], ks[2][0])
+
+    def msg(t):
+        tg, ks = t
+        if tg == 1:
+            return ('add', ks[0][0])
+        if tg == 2:
+            return ('del', ks[0][0])
+        return ('create' if tg == 3 else 'delete',) + subc(ks)
+    for ob in tree[1]:
+        if ob[0] == -1:
+            out.append({'error': ob})
+            continue
+        k = ob[1]
+        events = []
+        for e in k[8][1]:
+            tg, ks = e
+            if tg == 10:
+                events.append(('deliver',) + msg(ks[0]))
+            elif tg == 11:
+                events.append(('regdata', ks[0][0]))
+            elif tg == 12:
+                events.append(('sync',))
+            elif tg == 13:
+                events.append(('ignore', ks[0][0]))
+            elif tg == 14:
+                events.append(('unreg-data', ks[0][0]))
+            else:
+                events.append(('unreg-subset',) + subc(ks))
+        coll = [x[0] for x in k[1][1]]
+        groups = [x[0] for x in k[2][1]]
+        draw = [[(p[1][0][0], p[1][1][0]) for p in row[1]] for row in k[3][1]]
+        graw = [(gt[1][1][0], gt[1][2][0], [(p[1][0][0], p[1][1][0]) for p in gt[1][3][1]]) for gt in k[4][1]]
+        glists = {g: [(sid(x), d) for x, d in graw[g][2]] for g in groups}
+        dl = [sorted((g, sid(x)) for x, g in row) for row in draw]
+        out.append({'status': k[0][0], 'coll': coll, 'groups': groups, 'dsubs': dl, 'gsubs': glists,
+                    'gattr': {g: (graw[g][0], graw[g][1]) for g in groups},
+                    'subs': [(t[0], [c[0] for c in t[1]]) for t in k[7][1]], 'events': events, 'paused': k[9][0],
+                    'queue': [msg(t) for t in k[10][1]]})
+    return out
+
+
+def gen_valid(pool, ops):
+    nd, ng = pool, 0
+    for o in ops:
+        k = o[0]
+        if k == 'delayed':
+            for b in o[1]:
+                if b[0] == 'delayed' or not gen_valid_one(b, nd, ng):
+                    return False
+                if b[0] == 'newgroup':
+                    ng += 1
+            continue
+        if not gen_valid_one(o, nd, ng):
+            return False
+        if k == 'newgroup':
+            ng += 1
+    return True
+
+
+def gen_valid_one(o, nd, ng):
+    k = o[0]
+    if k in ('append', 'remove'):
+        return -1 <= o[1] < nd and (k == 'append' or o[1] >= 0)
+    if k == 'rmgroup':
+        return 0 <= o[1] < ng
+    if k == 'extend':
+        return all(-1 <= d < nd for d in o[1])
+    return k in ('newgroup', 'clear')
+
+
+def gen_key(pool, ops):
+    def fz(o):
+        return tuple(fz(x) if isinstance(x, (list, tuple)) else x for x in o)
+    return ('gen', pool, fz(ops))
+
+
+def check_gen_case(R, pool, ncolors, ops, mtree):
+    res, im = run_impl_gen(pool, ops)
+    ms = gen_snapshots(mtree) if mtree is not None else None
+    for i, (snap, orc) in enumerate(res):
+        if orc:
+            flat = [b for o in ops[:i + 1] for b in (o[1] if o[0] == 'delayed' else [o])]
+            R.fail('oracle', {'stream': 'generated', 'pool': pool, 'ops': ops[:i + 1]}, {'step': i, 'violations': orc[:6]}, key=None)
+            return False
+    if ms is None:
+        return True
+    if len(ms) != len(ops):
+        R.fail('correspondence', {'stream': 'generated', 'pool': pool, 'ops': ops}, {'why': 'translated machine returned %d observations for %d ops' % (len(ms), len(ops))})
+        return False
+    for i, (snap, _) in enumerate(res):
+        m = ms[i]
+        if 'error' in m:
+            R.fail('correspondence', {'stream': 'generated', 'pool': pool, 'ops': ops}, {'step': i, 'model': 'decode error'})
+            return False
+        diff = [f for f in GEN_FIELDS if snap[f] != m[f]]
+        if diff:
+            R.fail('correspondence', {'stream': 'generated', 'pool': pool, 'ops': ops[:i + 1]},
+                   {'step': i, 'fields': diff, 'impl': {f: snap[f] for f in diff}, 'translated': {f: m[f] for f in diff}})
+            return False
+    return True
+
+
+def gen_random_gops(rng, pool, length):
+    ops = []
+    ng = 0
+
+    def basic(in_block):
+        nonlocal ng
+        r = rng.random()
+        if r < 0.30:
+            return ('append', rng.randrange(pool) if rng.random() < 0.95 else -1)
+        if r < 0.52:
+            return ('remove', rng.randrange(pool))
+        if r < 0.70:
+            ng += 1
+            return ('newgroup',)
+        if r < 0.82 and ng:
+            return ('rmgroup', rng.randrange(ng))
+        if r < 0.90:
+            return ('extend', [rng.randrange(pool) if rng.random() < 0.93 else -1 for _ in range(rng.choice([0, 1, 2, 3]))])
+        if r < 0.95:
+            return ('clear',)
+        return ('append', rng.randrange(pool))
+    for _ in range(length):
+        if rng.random() < 0.3:
+            ops.append(('delayed', [basic(True) for _ in range(rng.choice([1, 2, 3, 4]))]))
+        else:
+            ops.append(basic(False))
+    return ops
+
+
+def stream_generated(R, ncolors):
+    """the functions of coq/gen/Gen_groups.v (run_case tag 2) against the live code: state, hub table, event trace, queue after every step"""
+    nd = 2
+    letters = [('append', 0), ('append', 1), ('remove', 0), ('remove', 1), ('newgroup',), ('rmgroup', 0), ('rmgroup', 1), ('clear',),
+               ('extend', [1, 0])]
+    block_letters = [('append', 0), ('append', 1), ('remove', 0), ('newgroup',), ('rmgroup', 0), ('clear',)]
+    k = R.pick(3, 4)
+    cases = [list(seq) for seq in itertools.product(letters, repeat=k) if gen_valid(nd, seq)]
+    n_exh = len(cases)
+    more = [list(seq) for seq in itertools.product(letters, repeat=k + 1) if gen_valid(nd, seq)]
+    n_more = R.pick(1200, 5000)
+    if len(more) > n_more:
+        more = R.subrng('gen-more').sample(more, n_more)
+    cases += more
+    # delayed blocks: every block of 1..3 operations after 4 prefixes, followed by one more append (what the queue left behind shows up)
+    pres = [[], [('append', 0)], [('append', 0), ('newgroup',)], [('newgroup',), ('append', 1), ('append', 0)]]
+    n_blk = 0
+    for pre in pres:
+        for n in (1, 2, 3):
+            for blk in itertools.product(block_letters, repeat=n):
+                c = pre + [('delayed', list(blk))] + [('append', 1)]
+                if gen_valid(nd, c):
+                    cases.append(c)
+                    n_blk += 1
+    cases += [[('append', -1)], [('extend', [0, -1, 1]), ('append', 1)], [('newgroup',), ('extend', [0, -1, 1]), ('remove', 0)],
+              [('delayed', [('extend', [0, -1]), ('newgroup',)]), ('append', 1)]]
+    nr = R.pick(500, 3000)
+    rnd = []
+    for i in range(nr):
+        rng = R.subrng('gen', i)
+        pool = rng.choice([2, 3, 4])
+        rnd.append((pool, gen_random_gops(rng, pool, rng.choice([4, 8, 14, 20]))))
+    allc = [(nd, c) for c in cases] + rnd
+    outs = safe_model(R, [gen_case_line(p, ncolors, ops) for p, ops in allc])
+    for (pool, ops), mt in zip(allc, outs):
+        flat = [b for o in ops for b in (o[1] if o[0] == 'delayed' else [o])]
+        ks = [b[0] for b in flat]
+        R.count(gen_key(pool, ops), nontrivial=('newgroup' in ks and ('append' in ks or 'extend' in ks)), stream='generated', length=len(ops))
+        check_gen_case(R, pool, ncolors, ops, mt)
+    R.sample({'generated': {'pool': rnd[0][0], 'ops': rnd[0][1][:10]}})
+    R.stream('generated', cases=n_exh, sampled_next_length=len(more), delayed_blocks=n_blk, random=nr, exhaustive=True,
+             bound='the translated functions of coq/gen/Gen_groups.v against the live code: all sequences of exactly %d operations over %d letters '
+                   '(append/remove of 2 datasets, new group, remove group 0/1, clear, extend([d1, d0])), %d sampled of length %d, every block of 1..3 '
+                   'operations over %d letters inside `with dc.hub.delay_callbacks()` after 4 prefixes, %d random sequences (pool 2..4, length 4..20, '
+                   '30%% delayed blocks, non-datasets in append/extend); after every step: collection, groups, both membership views, label/colour, '
+                   'the hub subscription table of the groups, the ordered trace (deliveries of the 4 message classes, register_to_hub, '
+                   '_sync_link_manager, _ignore_link_manager_update, Registry().unregister), pause counter and queue'
+                   % (k, len(letters), len(more), k + 1, len(block_letters), nr))
+
+
 def stream_malformed(R, ncolors):
     cases = [
         (2, [('merge', [])]), (2, [('merge', [0])]), (2, [('append', 0), ('newgroup', None), ('merge', [0])]),
         (2, [('append', -1)]), (2, [('newgroup', None), ('append', -1), ('append', 1)]),
         (3, [('append', 0), ('append', 1), ('newgroup', None), ('merge', [1]), ('append', -1), ('merge', [0, 1])]),
     ]
-    outs = R.model([case_line(p, ncolors, ops) for p, ops in cases])
+    outs = safe_model(R, [case_line(p, ncolors, ops) for p, ops in cases])
     for (pool, ops), mt in zip(cases, outs):
         R.count(ops_key(pool, ops), nontrivial=False, stream='malformed')
         check_case(R, pool, ncolors, ops, mt, 'malformed', True)
@@ -850,6 +1247,7 @@ def run(R):
               'a seeded random stream of long sequences and a small malformed stream; a case is non-trivial when it creates at least one group and adds at '
               'least one dataset (so that at least one (dataset, group) pair must be populated); distinct = distinct (pool, op sequence)')
     stream_malformed(R, ncolors)
+    stream_generated(R, ncolors)
     stream_random(R, ncolors)
     stream_restore(R)
     stream_session(R)
@@ -869,6 +1267,19 @@ def replay(R, case):
              'pre': [c13.c06_op(o) for o in case['pre']], 'ops': [c13.sop(o) for o in case['ops']]}
         step, bad = run_session_case(c)
         return {'case': case, 'first_failing_step': step, 'oracle': bad, 'violates': bool(bad)}
+    if case.get('stream') == 'generated':
+        def gop(o):
+            if o[0] == 'delayed':
+                return ('delayed', [gop(b) for b in o[1]])
+            return tuple(list(x) if isinstance(x, list) else x for x in o)
+        gops = [gop(o) for o in case['ops']]
+        res, im = run_impl_gen(pool, gops)
+        bad = [orc for _, orc in res if orc]
+        out = {'case': case, 'oracle': bad[:1], 'violates': bool(bad)}
+        if R.model_available:
+            ms = gen_snapshots(R.model([gen_case_line(pool, ncolors, gops)])[0])
+            out['translated_agrees'] = all(all(snap[f] == m.get(f) for f in GEN_FIELDS) for (snap, _), m in zip(res, ms))
+        return out
     if case.get('stream') == 'delay':
         pre = [tuple(_untuple(x) for x in o) for o in case['pre']]
         blk = [tuple(_untuple(x) for x in o) for o in case['block']]
